@@ -53,6 +53,8 @@ def trace_part(pid, uid, k, want, tier, verdict, extra_prefixes=()):
     nontrivial = set()
     clause_count = Counter()
     ends = Counter()
+    sites = Counter()
+    kinds = Counter()
     samples = []
     for d, t, p in zip(descs, traces, per):
         did = t["hdr"]["meta"]["did"]
@@ -60,6 +62,10 @@ def trace_part(pid, uid, k, want, tier, verdict, extra_prefixes=()):
         ends[f"{last.get('e')}:{last.get('status', last.get('type'))}"] += 1
         if p["nev"] >= 1:
             nontrivial.add(did)
+        for e in t["ev"]:
+            kinds[e["e"]] += 1
+            if e["e"] == "EE" and e.get("completed"):
+                sites[e["site"]] += 1
         for (c, l) in sorted(set(p["viol"])):
             if c[:3] in prefixes:
                 clause_count[c] += 1
@@ -76,6 +82,7 @@ def trace_part(pid, uid, k, want, tier, verdict, extra_prefixes=()):
         "universe_size": usize, "universe_visited": len(descs), "exhaustive": len(descs) == usize,
         "distinct_nontrivial_runs": len(nontrivial),
         "ends": dict(ends), "failed_clauses": dict(clause_count),
+        "events_consumed_by_kind": dict(kinds), "evaluations_by_site": dict(sites),
         "record_wall_s": round(wrec, 1), "tlc_wall_s": round(stats["wall"], 1),
         "samples": samples,
     }
